@@ -11,6 +11,7 @@ import Rip.Driver.C14
 import Rip.Driver.C17
 import Rip.Driver.C18
 import Rip.Driver.C16
+import Rip.Driver.C07
 
 /-- One case per line: `<property> <case tokens…>` → one observation line. -/
 def dispatch (line : String) : String :=
@@ -37,6 +38,7 @@ def dispatch (line : String) : String :=
     | "c14" => Rip.Driver.C14.handle rest
     | "c15" => Rip.Driver.C15.handle rest
     | "c15d" => Rip.Driver.C15.handleDec rest
+    | "c07" => Rip.Driver.C07.handle rest
     | "c16c" => Rip.Driver.C16.handleC rest
     | "c16a" => Rip.Driver.C16.handleA rest
     | "c16l" => Rip.Driver.C16.handleL rest
